@@ -18,7 +18,8 @@ LEVEL = "exploration"
 EPS = float(np.finfo(float).eps)
 RULE = ("Stateful generation: operation sequences (<= 50 steps) over a real Model (n<=3, m<=3, npt n+1..2n+1, growing from "
         "one point), rules change_point (allow_kopt_update=True, as every solver call site), add_new_sample, add_new_point, "
-        "swap_points, shift_base, save_point, get_final_results; slot indices are drawn as integers and reduced modulo the "
+        "swap_points, shift_base, save_point (with fresh arrays, and with views of the incumbent's own data as the solver's soft restart "
+        "does), get_final_results; slot indices are drawn as integers and reduced modulo the "
         "current number of points; residual data are small integers (many ties) with NaN and +-inf mixed in; with and without "
         "an L1 regulariser; only in-bounds points are fed. Oracle: shadow model (per slot: absolute x, list of samples, "
         "evaluation number; saved record) compared after every step. Non-trivial = the sequence contains a swap of slots with "
@@ -54,7 +55,7 @@ def cases(draw):
     nops = draw(st.integers(1, 50))
     for _ in range(nops):
         kind = draw(st.sampled_from(["change", "change", "change", "grow", "grow", "sample", "sample", "swap", "shift",
-                                     "save", "final", "addpoint"]))
+                                     "save", "save_inc", "final", "addpoint"]))
         op = {"op": kind}
         if kind in ("change", "grow", "addpoint"):
             op["x"] = [draw(st.integers(-40, 40)) / 8.0 for _ in range(n)]
@@ -267,6 +268,27 @@ def _run(case):
                 elif not math.isfinite(obj):
                     pass
                 else:
+                    tol = 16 * EPS * 3 * (abs(best) if math.isfinite(best) else 1.0)
+                    if obj < best - tol:
+                        saved = [rec]
+                    elif obj <= best + tol:
+                        saved = [rec] + saved
+        elif kind == "save_inc":
+            # save the incumbent exactly as Controller.soft_restart does: the arguments are views into the model's own arrays
+            inc = slots[mdl.kopt]
+            obj = slot_obj(inc)
+            mdl.save_point(mdl.xopt(abs_coordinates=True), mdl.ropt(), mdl.nsamples[mdl.kopt], mdl.eval_num[mdl.kopt], x_in_abs_coords=True)
+            rec = {"x": inc["x"].copy(), "r": mean_of(inc["samples"]).copy(), "ns": len(inc["samples"]), "en": inc["en"], "obj": obj,
+                   "rmax": max([1e-300] + [abs(v) for smp in inc["samples"] for v in smp if math.isfinite(v)])}
+            if saved is None:
+                saved = [rec]
+            else:
+                best = saved[0]["obj"]
+                if not math.isfinite(best) and math.isfinite(obj):
+                    saved = [rec]
+                elif not math.isfinite(best):
+                    saved = [rec] + saved
+                elif math.isfinite(obj):
                     tol = 16 * EPS * 3 * (abs(best) if math.isfinite(best) else 1.0)
                     if obj < best - tol:
                         saved = [rec]
